@@ -18,9 +18,11 @@ import (
 	"github.com/Oneledger/protocol/action"
 	agov "github.com/Oneledger/protocol/action/governance"
 	adeleg "github.com/Oneledger/protocol/action/network_delegation"
+	aolvm "github.com/Oneledger/protocol/action/olvm"
 	"github.com/Oneledger/protocol/action/transfer"
 	"github.com/Oneledger/protocol/data/balance"
 	"github.com/Oneledger/protocol/data/keys"
+	"github.com/Oneledger/protocol/utils"
 
 	"olverif/harness/rng"
 )
@@ -196,6 +198,28 @@ func (g *Gen) crashTable() []HostileInput {
 	for i := 0; i < 6; i++ {
 		out = append(out, HostileInput{fmt.Sprintf("random-bytes-%d", i), g.R.Bytes(1 + g.R.Intn(300))})
 	}
+	// OLVM payloads (the fork is active from block 1 in this world): hostile envelope parts that
+	// are consumed before any signature or balance check
+	olvm := func(label string, chain *big.Int, sig []byte, nsig int, amount action.Amount) {
+		to := g.acct().Addr
+		msg := aolvm.Transaction{Nonce: 0, From: a.Addr, To: &to, Amount: amount, Data: nil, ChainID: chain}
+		data, _ := msg.Marshal()
+		st := action.SignedTx{RawTx: action.RawTx{Type: action.OLVM, Data: data, Fee: DefaultFee(), Memo: "0"}}
+		for i := 0; i < nsig; i++ {
+			st.Signatures = append(st.Signatures, action.Signature{Signer: a.Pub, Signed: sig})
+		}
+		out = append(out, HostileInput{"OLVM " + label, serSigned(&st)})
+	}
+	cid := utils.HashToBigInt(g.W.ChainID)
+	olvm("nil-chain-id", nil, make([]byte, 65), 1, OLT(1))
+	olvm("short-signature", cid, make([]byte, 64), 1, OLT(1))
+	olvm("empty-signature", cid, nil, 1, OLT(1))
+	olvm("long-signature", cid, make([]byte, 66), 1, OLT(1))
+	olvm("no-signatures", cid, nil, 0, OLT(1))
+	olvm("two-signatures", cid, make([]byte, 65), 2, OLT(1))
+	olvm("zero-signature", cid, make([]byte, 65), 1, OLT(1))
+	olvm("unknown-currency", cid, make([]byte, 65), 1, action.Amount{Currency: "XYZ", Value: *balance.NewAmount(1)})
+	olvm("negative-chain-id", big.NewInt(-1), make([]byte, 65), 1, OLT(1))
 	return out
 }
 
@@ -203,6 +227,9 @@ func (g *Gen) crashTable() []HostileInput {
 func NoCrashInputs(seed uint64, fuzz int) (*World, []HostileInput) {
 	p := SmallParams(seed)
 	p.NVals, p.TopValidators = 4, 4
+	// fork family: OLVM is enabled from block 1, genesis validators stake enough to survive it
+	p.Frankenstein = 1
+	p.GenesisStake = []int64{600000, 500000, 700000, 500001, 500002, 500003}
 	w := NewWorld(p)
 	r := rng.New(seed*7 + 1)
 	g := NewGen(w, r)
